@@ -302,6 +302,8 @@ class Env:
             return p_mul(self.poly(e.args[0]), self.poly(e.args[1]))
         if op == "shl" and e.args[1].op == "const":
             return p_mul(self.poly(e.args[0]), p_const(1 << e.args[1].args[0]))
+        if op == "div" and e.args[1].op == "const" and e.args[1].args[0] == 1:
+            return self.poly(e.args[0])
         return self._atom(e)
 
     def _atom(self, e):
